@@ -8,12 +8,12 @@ META = {
             "0..n-1, when the caller has returned all n invocations have ended and every index was invoked exactly once, and (n > 0) whenever the caller waits and every other thread is outside _dispatch_apply_invoke2 the completion event has been signalled (caller_released: no helper count or late helper strands the caller; quiescent_returned: a state in which no entered thread can step is one in which the caller has returned). Tie: every atomic transition of _dispatch_apply_invoke2 in "
             "the real library is replayed through ApplyP.step; per-index counters, return-after-all, index order / no overlap on serial targets, no overlap with barriers of a "
             "concurrent target and nested applies are evaluated on the same runs for n in {0,1,2,cpus-1,cpus,cpus+1,100,1000,20000} and six kinds of target queue.",
-    "note": "Partial: the serial path (_dispatch_apply_serial, a plain loop), the thread-count selection and the width reservation on the target (C04's runningA transitions) are "
+    "note": "Partial: the serial path is a theorem over a hand transcription of its loop (ApplySerial, statements looked up in apply.c on every run, order checked by the 2^32 + 3 run); the thread-count selection and the width reservation on the target (C04's runningA transitions) are "
             "covered by the oracle and by C04, not by a C10 theorem. Interleaving model.",
     "technique": "Lean 4 proof (inductive invariant over ghost claim / invoked lists) + replay of real atomic traces + per-index oracle",
 }
 
-THEOREMS = ["C10.invoked_once_in_range", "C10.returns_after_all", "C10.caller_released", "C10.caller_released_witness", "C10.quiescent_returned"]
+THEOREMS = ["C10.invoked_once_in_range", "C10.returns_after_all", "C10.caller_released", "C10.caller_released_witness", "C10.quiescent_returned", "C10.serial_in_order", "C10.serial_narrow_index_repeats"]
 
 
 def run(ctx):
@@ -23,5 +23,17 @@ def run(ctx):
     run_traces(ctx, "tr_apply", runs, "apply", r"explained-by-ApplyP.step (\d+)", "L-trace apply", "apply", timeout=120)
     # more iterations than a 32-bit index can count, in order on a serial queue (about 2^32 invocations, some 9 s)
     run_traces(ctx, "tr_apply", [[ctx.seed, 0, 1]], None, None, "L-api 2^32 + 3 iterations in order", "big", timeout=400)
+    # ApplySerial.serialLoop transcribes the loop of _dispatch_apply_serial with an index word as wide as the count; the statements are looked up on every run
+    import os, re
+    from common import REPO
+    src = open(os.path.join(REPO, "src/apply.c")).read()
+    m = re.search(r"\n_dispatch_apply_serial\(.*?\n}\n", src, re.S)
+    body = re.sub(r"\s+", " ", re.sub(r"//[^\n]*", "", m.group(0))) if m else ""
+    want = ["size_t const iter = da->da_iterations;", "size_t idx = 0;", "do {", "_dispatch_client_callout2(dc->dc_ctxt, idx, (void*)dc->dc_func);", "} while (++idx < iter);"]
+    pos = [body.find(w) for w in want]
+    if not (all(p >= 0 for p in pos) and pos == sorted(pos) and body.count("idx") == 3):
+        ctx.broken("transcription of _dispatch_apply_serial (ApplySerial.serialLoop, theorem C10.serial_in_order: `size_t idx = 0; do { callout(idx) } while (++idx < iter);`)",
+                   "the loop is no longer there in that form; the 2^32 + 3 run above is the search for a failing input")
+    ctx.count("source shape serial loop", 1, 1)
     ctx.cov["rule"] = ("tr_apply: three client threads issue applies with n from the boundary set onto AUTO / global / serial / concurrent / concurrent->serial / "
                        "concurrent->concurrent targets, nested up to depth 2, barriers racing on the concurrent queue; distinct_nontrivial = da_index / da_todo transitions explained")
